@@ -41,7 +41,8 @@ type Op struct {
 	// Every DupEvery-th line (DupEvery>0) is logged 1+Rep times in a row from the
 	// same call site (identical consecutive lines). With Twin every text is
 	// logged a second time directly afterwards, 1: with the next severity, 2: from
-	// the other package (same text, not identical: must not be merged). F selects
+	// the other package, 3: from another line of the same file (same text, not identical:
+	// must not be merged). F selects
 	// the Printf-style functions; Via calls through a function table, so that all
 	// severities share ONE call site (file and line) and only the level differs.
 	N        int    `json:"n,omitempty"`
@@ -180,6 +181,27 @@ type Line struct {
 	Pkg  string // "pkga" / "pkgb"
 	F    bool
 	Via  bool
+	H    bool // logged by the request handler of the helper package (tracer lines and their plain echoes), not by Log/LogVia
+}
+
+// SiteOfLine maps a line number of the helper packages' ops.go (the two files are line-identical) to the kind of call
+// site on it: "p" plain call in Log, "f" Printf-style call in Log, "v" the one call in LogVia, "hp"/"hf" the calls of
+// the request handler. Set by the test's TestMain from the sources; nil = call sites are not told apart.
+var SiteOfLine map[int]string
+
+// Site is the kind of call site the line is logged from ("" when call sites are not told apart).
+func (l Line) Site() string {
+	switch {
+	case SiteOfLine == nil:
+		return ""
+	case l.H:
+		return "" // the handler's lines are not told apart by call site
+	case l.Via:
+		return "v"
+	case l.F:
+		return "f"
+	}
+	return "p"
 }
 
 // Event is one expanded step of a goroutine.
@@ -244,13 +266,17 @@ func (e *Expander) Expand(op Op) []Event {
 			out = append(out, Event{Kind: OpLines, Line: ln, Times: times})
 			if op.Twin != 0 {
 				tw := ln
-				if op.Twin == 2 {
+				switch op.Twin {
+				case 2:
 					if tw.Pkg == "pkga" {
 						tw.Pkg = "pkgb"
 					} else {
 						tw.Pkg = "pkga"
 					}
-				} else {
+				case 3:
+					// same text, severity and file - another line of that file
+					tw.F, tw.Via = !ln.F && !ln.Via, false
+				default:
 					tw.Sev = wrapSev(ln.Sev + 1)
 				}
 				out = append(out, Event{Kind: OpLines, Line: tw, Times: 1})
@@ -260,7 +286,7 @@ func (e *Expander) Expand(op Op) []Event {
 	case OpTracer:
 		ev := Event{Kind: OpTracer, Pkg: pkgName(op.Pkg)}
 		for k, s := range op.Sevs {
-			ev.Trace = append(ev.Trace, Line{Text: TraceText(e.G, e.next, k), Sev: wrapSev(s), Pkg: ev.Pkg, F: op.Fm>>uint(k)&1 == 1})
+			ev.Trace = append(ev.Trace, Line{Text: TraceText(e.G, e.next, k), Sev: wrapSev(s), Pkg: ev.Pkg, F: op.Fm>>uint(k)&1 == 1, H: true})
 		}
 		e.next++
 		rep := op.EchoRep
